@@ -39,3 +39,26 @@ Example C08_example :
   = option_map n_kids (match scan_node search 4 (Node (L"b") (L"ping 10.0.0.1") [] 0 13 []) with Ok t => Some t | _ => None end).
 Proof. vm_compute. reflexivity. Qed.
 Print Assumptions C08_example.
+
+(* BEGIN shipped-registry instances *)
+(* THE SHIPPED SCANNER (Proofs/DefaultEngine.v): the theorems above hold for any registry with in-bounds hits; these are the same statements about the model of Multidecoder().scan itself - the regenerated registry of all 30 decoders and the keyword searchers (scan_default), the registry with find_powershell_strings replaced by any conforming decoder ps (scan_default_with ... ps; F6 is the reason it does not conform itself), and the registry with the shell module excluded (scan_noshell) - for every input, depth limit, keyword directory and tool oracle (pe_size non-negative). *)
+From MD Require Import Model.EngineR Model.Default Model.Flatten Proofs.DefaultWf Proofs.DefaultEngine Proofs.ChainProofs.
+
+(* scan_default itself (all 30 decoders, F6 included): no hypothesis at all *)
+Theorem C08_shipped_fresh : forall (pe_size : Base.bytes -> BinNums.Z) (xortool : Base.bytes -> list Base.bytes) (extra : Base.label -> option (Base.bytes -> Base.res (list Node.node))) (kwdir : Registry.dtree) (d : nat) (ty : Base.label) (v : Base.bytes) (o : Base.label) (s e : BinNums.Z) (o' : Base.label) (s' e' : BinNums.Z) (t : Node.node), scan_node_r (search_default pe_size xortool extra RegistryTable.decoder_modules kwdir) d (Node.Node ty v o s e nil) = Base.Ok t -> scan_node_r (search_default pe_size xortool extra RegistryTable.decoder_modules kwdir) d (Node.Node ty v o' s' e' nil) = Base.Ok (Node.Node ty v o' s' e' (Node.n_kids t)) /\ (exists ks : list Node.node, t = Node.Node ty v o s e ks).
+Proof. exact shipped_scan_fresh. Qed.
+Print Assumptions C08_shipped_fresh.
+
+Theorem C08_shipped_decoded_fresh : forall (pe_size : Base.bytes -> BinNums.Z) (xortool : Base.bytes -> list Base.bytes) (extra : Base.label -> option (Base.bytes -> Base.res (list Node.node))) (kwdir : Registry.dtree) (d : nat) (h h2 : Node.node), Node.n_kids h = nil -> scan_node_r (search_default pe_size xortool extra RegistryTable.decoder_modules kwdir) d h = Base.Ok h2 -> exists t : Node.node, scan_node_r (search_default pe_size xortool extra RegistryTable.decoder_modules kwdir) d (EngineDepth.fresh_node h) = Base.Ok t /\ h2 = Node.set_kids h (Node.n_kids t).
+Proof. exact shipped_scan_decoded_fresh. Qed.
+Print Assumptions C08_shipped_decoded_fresh.
+
+Theorem C08_shipped_attaches_fresh_scans : forall (pe_size : Base.bytes -> BinNums.Z) (xortool : Base.bytes -> list Base.bytes) (extra : Base.label -> option (Base.bytes -> Base.res (list Node.node))) (kwdir : Registry.dtree) (d : nat) (n : Node.node), Node.n_kids n = nil -> scan_node_r (search_default pe_size xortool extra RegistryTable.decoder_modules kwdir) (S d) n = Base.bind (search_default pe_size xortool extra RegistryTable.decoder_modules kwdir (Node.n_val n)) (fun hits : list Node.node => Base.bind (Base.foldM (Engine.step (rec_fresh_r (search_default pe_size xortool extra RegistryTable.decoder_modules kwdir) d)) (Engine.sort_hits (List.filter Engine.nonempty_val hits)) (Engine.init_state n)) (fun s : Engine.state => Base.Ok (Engine.unwind (Engine.cur s) (Engine.stack s)))).
+Proof. exact shipped_scan_attaches_fresh_scans. Qed.
+Print Assumptions C08_shipped_attaches_fresh_scans.
+
+Theorem C08_default_fresh : forall pe_size : Base.bytes -> BinNums.Z, (forall b : Base.bytes, BinInt.Z.le BinNums.Z0 (pe_size b)) -> forall (xortool : Base.bytes -> list Base.bytes) (extra : Base.label -> option (Base.bytes -> Base.res (list Node.node))) (ps : Base.bytes -> Base.res (list Node.node)) (kwdir : Registry.dtree) (d : nat) (ty : Base.label) (v : Base.bytes) (o : Base.label) (s e : BinNums.Z) (o' : Base.label) (s' e' : BinNums.Z) (t : Node.node), strong_ok ps -> scan_node_r (search_default_with pe_size xortool extra ps kwdir) d (Node.Node ty v o s e nil) = Base.Ok t -> scan_node_r (search_default_with pe_size xortool extra ps kwdir) d (Node.Node ty v o' s' e' nil) = Base.Ok (Node.Node ty v o' s' e' (Node.n_kids t)) /\ (exists ks : list Node.node, t = Node.Node ty v o s e ks).
+Proof. exact default_scan_fresh. Qed.
+Print Assumptions C08_default_fresh.
+
+(* END shipped-registry instances *)
